@@ -52,14 +52,15 @@ def card_text(seat, card, suit_first=False):
 # ---- server -> client (tolerant readers) -------------------------------------------------
 
 def read_seated(line):
-    m = re.fullmatch(r'(north|east|south|west)\s+(?:\("(.*)"\)|(.*?))\s+seated', line.strip(), re.I | re.S)
+    # the team name is free text: it is delimited by exactly one blank on each side (or by ("...")), never trimmed
+    m = re.fullmatch(r'(north|east|south|west) (?:\("(.*)"\)|(.*)) seated', line, re.I | re.S)
     if not m:
         return None
     return FORMAL.index(m.group(1).capitalize()), m.group(2) if m.group(2) is not None else m.group(3)
 
 
 def read_teams(line):
-    m = re.fullmatch(r'teams\s*:\s*n/s\s*:\s*"(.*)"\s*\.?\s*e/w\s*:\s*"(.*)"\s*\.?', line.strip(), re.I | re.S)
+    m = re.fullmatch(r'teams *: *n/s *: *"(.*)" *\.? *e/w *: *"(.*)" *\.?', line, re.I | re.S)
     if not m:
         return None
     return m.group(1), m.group(2)
